@@ -78,7 +78,7 @@ class CollationManager(context_class_base):
     """
     lc_collate: Union[None, str, tuple[Optional[str], Optional[str]]]
     fallback: bool = False
-    _current_lc_collate: Optional[tuple[Optional[str], Optional[str]]] = None
+    _current_lc_collate: Union[None, str, tuple[Optional[str], Optional[str]]] = None
 
     def __init__(self,
                  collation: Optional[str],
@@ -90,6 +90,9 @@ class CollationManager(context_class_base):
 
         if collation is None:
             msg = 'collation cannot be an empty sequence'
+            raise xpath_error('XPTY0004', msg, self.token)
+        elif not isinstance(collation, str):
+            msg = f'collation must be a string, not {type(collation)!r}'
             raise xpath_error('XPTY0004', msg, self.token)
         elif not urlsplit(collation).scheme and token is not None:
             # Collation is a relative URI: try to complete with the static base URI
@@ -133,9 +136,10 @@ class CollationManager(context_class_base):
         if self.lc_collate is not None:
             # Only one locale set can be used at a time
             _locale_collate_lock.acquire()
-            self._current_lc_collate = locale.getlocale(locale.LC_COLLATE)
 
             try:
+                # Use the raw locale name: getlocale() fails for names that it cannot parse
+                self._current_lc_collate = locale.setlocale(locale.LC_COLLATE, None)
                 locale.setlocale(locale.LC_COLLATE, self.lc_collate)
             except locale.Error:
                 if not self.fallback:
@@ -145,7 +149,16 @@ class CollationManager(context_class_base):
                     msg = f"Unsupported collation {self.collation!r}"
                     raise xpath_error('FOCH0002', msg, self.token) from None
 
-                locale.setlocale(locale.LC_COLLATE, 'en_US.UTF-8')
+                try:
+                    locale.setlocale(locale.LC_COLLATE, 'en_US.UTF-8')
+                except locale.Error:
+                    # The fallback locale is not installed too: keep the current one,
+                    # that will be restored (and the lock released) at exit.
+                    pass
+            except BaseException:
+                self._current_lc_collate = None
+                _locale_collate_lock.release()
+                raise
 
         return self
 
